@@ -100,7 +100,17 @@ def c03(tier):
                 note="datastorage.rs + memoryadapter.rs from MIR; serde_json serialiser/parser modelled")
 
 
-S2 = {"hash_order": "fixed", "par_order": "fixed"}
+S2 = {"hash_order": "fixed", "par_order": "fixed", "digest_len": 16}
+S2_ASSUME = ["single client thread; rayon par_iter bodies run sequentially in one canonical order unless stated otherwise",
+             "hash tables iterate in one canonical order unless stated otherwise",
+             "SHA-256 digests of symbolic content are abstracted to 16 (instead of 64) symbolic hex characters"]
+
+
+def c07(tier):
+    jobs = [Job("h_c07::resolve_object", (0,), dict(S2), budget_s=3000, validate=30),
+            Job("h_c07::resolve_both", (), dict(S2), budget_s=3000, validate=30)]
+    return dict(jobs=jobs, bounds={"scenario": "base [a,b]; each replica concurrently updates a to a symbolic value or deletes it; exchange; every live leaf chosen; commit; propagate / independent resolutions on both replicas"},
+                assumptions=S2_ASSUME, note="melda.rs resolve_as / update_object / delete_object / get_* / read / commit / meld / refresh from MIR")
 
 
 def c08(tier):
@@ -113,4 +123,4 @@ def c08(tier):
                 note="melda.rs operations from MIR with the lock model")
 
 
-PROPS = {"C08": c08, "C03": c03, "C06": c06, "C16": c16, "C19": c19, "C05": c05, "C15": c15}
+PROPS = {"C07": c07, "C08": c08, "C03": c03, "C06": c06, "C16": c16, "C19": c19, "C05": c05, "C15": c15}
